@@ -805,7 +805,15 @@ fn gen_vote(coord: &DistributedTxCoordinator, tx: u64, shard: usize, rng: &mut R
             rep.count("op:handle_prepare", 1);
             coord.handle_prepare(&req)
         }
-        1 => PrepareVote::Yes { lock_handle: 1_000_000 + rng.below(1_000_000) as u64, delta: DeltaVector::zero(DIM) },
+        1 => {
+            // half of the synthetic handles come from a tiny pool: the participants' handle counter
+            // restarts at 1 with every process, so different transactions do carry equal handle values
+            let lock_handle = if rng.bool() { 1 + rng.below(6) as u64 } else { 1_000_000 + rng.below(1_000_000) as u64 };
+            if lock_handle < 100 {
+                rep.count("op:vote-with-reused-handle-value", 1);
+            }
+            PrepareVote::Yes { lock_handle, delta: DeltaVector::zero(DIM) }
+        }
         2 => PrepareVote::No { reason: "no".to_string() },
         _ => PrepareVote::Conflict { similarity: 1.0, conflicting_tx: 7 },
     }
@@ -1392,6 +1400,7 @@ fn main() {
                 ("chain_crashes_with_torn_tail", 30),
                 ("live_lock_holders_across_recovery_calls", 100),
                 ("op:vote-from-non-participant", 300),
+                ("op:vote-with-reused-handle-value", 1_000),
                 ("checked:unreleased-locks-after-commit", 200),
                 ("checked:unreleased-locks-after-abort", 2_000),
                 ("checked:completed-after-restart-across-later-recovery-call", 500),
